@@ -43,7 +43,9 @@ St(op, id) == [op |-> op, id |-> id, n |-> "", n2 |-> "", e |-> NoE, e2 |-> NoE,
                b |-> <<>>, b2 |-> <<>>, f |-> "", g |-> "", ps |-> <<>>]
 Par(n, e) == [n |-> n, e |-> e]
 
-Truthy(v) == v \notin {Nil, "false", "", "0", Unset}
+\* contract (C05): everything is truthy but false, 0, the empty string and nil
+Falsy == {Nil, "false", "", "0", Unset, "ref:zerofloat", "ref:nilptr", "ref:nilslice", "ref:nilmap", "ref:niliface", "ref:nilfunc"}
+Truthy(v) == v \notin Falsy
 
 ---------------------------------------------------------------------------
 VARIABLES cs,        \* the case under execution (constant along a behaviour)
@@ -259,7 +261,7 @@ IfExit ==
 
 \* range. s.f = form: "none" | "k" | "kv"; s.n, s.n2 variable names; s.f2 (in e2.a): ":=" or "="
 \* collection: ListE(kind, vs), kind in slice | map | chan | ints | custom (index-less) | nil | bad
-ProvidesIndex(kind) == kind \in {"slice", "islice", "array", "map", "ints", "customidx"}
+ProvidesIndex(kind) == kind \in {"slice", "islice", "array", "ptrslice", "map", "map1", "ints", "customidx"}
 DoRange(s) ==
   LET coll  == s.e
       isSet == s.f # "none"
@@ -274,7 +276,7 @@ DoRange(s) ==
           /\ UNCHANGED <<frames, ctx, contents, content, bufs, writer, out, rv>>
      ELSE LET L  == frames[Top]
               fr == [Fr("range", <<>>, s) EXCEPT !.opened = isLet, !.cx = ctx,
-                         !.rest = [i \in 1..Len(coll.vs) |-> <<IF coll.a = "map" THEN "k" \o coll.vs[i] ELSE ToString(i - 1), coll.vs[i]>>],
+                         !.rest = [i \in 1..Len(coll.vs) |-> <<IF coll.a \in {"map", "map1"} THEN "k" \o coll.vs[i] ELSE ToString(i - 1), coll.vs[i]>>],
                          !.ret = L.ret, !.ran = FALSE]
           IN /\ heap' = ns.heap /\ cur' = ns.cur
              /\ frames' = Append(frames, fr)
